@@ -15,6 +15,9 @@ pub mod error;
 mod util;
 mod xz;
 
+#[cfg(lzma_rs_verif)]
+pub mod verif;
+
 use std::io;
 
 /// Compression helpers.
